@@ -1,0 +1,96 @@
+//go:build verif
+
+package ha
+
+import (
+	"net/http"
+	"time"
+)
+
+// Add-only verification hooks for property C13 (the standby converges to the
+// active node's session table).  Compiled only with `-tags verif`.  They expose
+// unexported entry points of HASyncer and read-only views of its queues; the
+// only setter (VerifSetBackoff) writes the three back-off fields that
+// NewHASyncer initialises to constants and must be called before Start.
+// Nothing here changes the behaviour of existing code.
+
+// ---- standby side -----------------------------------------------------------
+
+// VerifHandleSSEData delivers one SSE "data:" payload to the standby's stream
+// handler, exactly as connectToStream does for every data line it reads.
+func (s *HASyncer) VerifHandleSSEData(data []byte) error { return s.handleSSEData(data) }
+
+// VerifPerformFullSync runs the standby's full synchronisation (HTTP GET
+// /ha/sessions against config.Partner.Endpoint and application of the
+// snapshot) in the calling goroutine, as standbyLoop does.
+func (s *HASyncer) VerifPerformFullSync() error { return s.performFullSync() }
+
+// VerifSetBackoff replaces the reconnect back-off bounds (1 s .. 30 s, set as
+// constants in NewHASyncer) used by waitReconnect/resetBackoff.  Call it before
+// Start: the fields are owned by the standbyLoop goroutine afterwards.  min
+// must be at least 5 ns (waitReconnect draws its jitter from backoff/5).
+func (s *HASyncer) VerifSetBackoff(min, max time.Duration) {
+	if min < 5*time.Nanosecond {
+		min = 5 * time.Nanosecond
+	}
+	if max < min {
+		max = min
+	}
+	s.backoff = min
+	s.backoffMin = min
+	s.backoffMax = max
+}
+
+// ---- active side ------------------------------------------------------------
+
+// VerifActiveHandler returns the HTTP handler an active node serves: the same
+// three routes, bound to the same unexported handlers, that startActive
+// registers on its own mux.  It lets a harness put the real handlers behind
+// its own listener (httptest) without Start, i.e. without the node binding
+// config.ListenAddr and without the broadcastLoop goroutine.
+func (s *HASyncer) VerifActiveHandler() http.Handler {
+	mux := http.NewServeMux()
+	mux.HandleFunc("/ha/sessions", s.handleGetSessions)
+	mux.HandleFunc("/ha/sessions/stream", s.handleSessionStream)
+	mux.HandleFunc("/ha/health", s.handleHealth)
+	return mux
+}
+
+// VerifBroadcastPending hands every change currently queued by PushChange to
+// the connected stream clients, in queue order, through the real
+// broadcastToClients — what broadcastLoop does for each element of
+// pendingChanges — and returns when the queue is empty.  For a syncer that was
+// not started (no broadcastLoop); with a running broadcastLoop the two would
+// merely share the work.
+func (s *HASyncer) VerifBroadcastPending() {
+	for {
+		select {
+		case msg := <-s.pendingChanges:
+			s.broadcastToClients(msg)
+		default:
+			return
+		}
+	}
+}
+
+// VerifSSEClientCount returns the number of stream clients currently
+// registered on the active (len(sseClients)).
+func (s *HASyncer) VerifSSEClientCount() int {
+	s.sseClientsMu.RLock()
+	defer s.sseClientsMu.RUnlock()
+	return len(s.sseClients)
+}
+
+// VerifSSEBacklog returns the number of messages the active still holds in its
+// queues: changes queued by PushChange and not yet broadcast, plus messages
+// waiting in the per-client channels of the registered stream clients.  (A
+// message a stream handler has already taken and is writing is not counted.)
+func (s *HASyncer) VerifSSEBacklog() int {
+	n := len(s.pendingChanges)
+	s.sseClientsMu.RLock()
+	for _, ch := range s.sseClients {
+		n += len(ch)
+	}
+	s.sseClientsMu.RUnlock()
+	return n
+}
